@@ -66,6 +66,66 @@ def sizing_pieces(ctx):
                    ('R13', r'f\(s, sidx, (static_cast<IntegerT>\(sidx \+ chunkSize\))\);', r'return (PairII){sidx, \1};', 1)])
 
 
+PS = 'dispenso/detail/par_for_stripe.h'
+
+
+def stripe_pieces(ctx):
+    r = ctx.repo
+    ctx.emit('alignDownStripe.body.inc', r.function(PS, r'inline\s+IntegerT\s+alignDownStripe\s*\(\s*IntegerT\s+value\s*,\s*uint32_t\s+granularity\s*\)'),
+             must_fire=['R2', 'R4'], subs=[('R4', r'std::is_signed<IntegerT>::value', 'IS_SIGNED', 1)])
+    sc = r.function(PS, r'inline\s+bool\s+stripeClaim\s*\([^)]*\)')
+    sl = X.slice_between(sc, r'if\s*\(prev >= s\.end\)', r'return\s+true\s*;', include_end=True)
+    ctx.emit('stripe_claim_rule.slice.inc', sl, must_fire=['R2', 'R7', 'R10'],
+             subs=[('R7', ('block', r'bool\s+expected\s*=\s*false;\s*if\s*\(s\.retired\.compare_exchange_strong\('), '/* retire bookkeeping (mask bit, activeStripes): no effect on the claimed range */', 1),
+                   ('R11', r'\bs\.end\b', 's_end'),
+                   ('R10', r'return\s+false\s*;', 'return (ClaimResult){0, outBegin, outEnd};', 1),
+                   ('R10', r'return\s+true\s*;', 'return (ClaimResult){1, outBegin, outEnd};', 1)])
+    ini = r.function(PS, r'inline\s+void\s+initStripeState\s*\([^)]*\)')
+    sl = X.slice_between(ini, r'Wide\s+totalRange\s*=', r'state\.activeStripes\.store\(activeCount, std::memory_order_release\);')
+    ctx.emit('init_stripes.slice.inc', sl, must_fire=['R2', 'R7', 'R8', 'LC'],
+             subs=[('R8', r'auto&\s+s\s*=\s*state\.stripes\[i\];', '', 1),
+                   ('R8', r'\bs\.end\s*=\s*stripeEnd;', 'stripes_end[i] = stripeEnd;', 1),
+                   ('R7', r'\bs\.next\.store\(cursor, std::memory_order_relaxed\);', 'stripes_next[i] = cursor;', 1),
+                   ('R7', r'\bs\.retired\.store\(false, std::memory_order_relaxed\);', 'stripes_retired[i] = 0;', 1),
+                   ('R7', r'\bs\.retired\.store\(true, std::memory_order_relaxed\);', 'stripes_retired[i] = 1;', 1),
+                   ('R7', r'state\.hasWorkMasks\[i >> 6\]\.bits\.fetch_or\([^;]*\);', '/* has-work mask bit set (C12-irrelevant bookkeeping) */', 1),
+                   ('R11', r'state\.granularity', 'state_granularity', 1),
+                   ('LC', r'for\s*\(uint32_t i = 0; i < numWorkers; \+\+i\)\s*\{',
+                    'for (uint32_t i = 0; i < numWorkers; ++i) '
+                    '__CPROVER_loop_invariant(i <= numWorkers && start <= cursor && cursor <= end && activeCount <= i && (i == 0 ==> cursor == start) && (i == numWorkers ==> cursor == end)) '
+                    '__CPROVER_loop_invariant(k < i ==> ((mathint)start <= (mathint)stripes_next[k] && stripes_next[k] <= stripes_end[k] && (mathint)stripes_end[k] <= (mathint)end && '
+                    '(k == 0 ==> (mathint)stripes_next[k] == (mathint)start) && (k + 1 == numWorkers ==> (mathint)stripes_end[k] == (mathint)end) && '
+                    'stripes_retired[k] == !(stripes_next[k] < stripes_end[k]) C13_INV_K)) '
+                    '__CPROVER_loop_invariant((k + 1 < i ==> stripes_next[k + 1] == stripes_end[k]) && (k + 1 == i ==> (mathint)cursor == (mathint)stripes_end[k])) '
+                    '__CPROVER_decreases(numWorkers - i) {', 1)])
+
+
+def stripe_units(ctx, insts, prop='C12'):
+    units = []
+    S = 'specs/c12_stripe.c'
+    for t, uu, sg in insts:
+        bits = int(t.replace('uint', '').replace('int', '').replace('_t', ''))
+        d = {'IntegerT': t, 'Wide': 'int64_t' if sg else 'uint64_t', 'IS_SIGNED': str(sg), 'NW_MAX': '4096',
+             'IT_MAX': str((1 << (bits - (1 if sg else 0))) - 1) + ('' if sg else 'u'), 'IT_MIN': ('(-%d - 1)' % ((1 << (bits - 1)) - 1)) if sg else '0',
+             'WIDE_MAX': '9223372036854775807' if sg else '18446744073709551615u', 'C13_INV_K': ''}
+        if prop == 'C13':
+            d['C13_GRANULAR'] = '1'
+            d['C13_INV_K'] = '"&& (k + 1 < numWorkers ==> ((mathint)stripes_end[k] - (mathint)start) % (mathint)state_granularity == 0)"'
+        common = dict(defines=d, inst=t, timeout=150, signed_wrap=True, nonprop_cls=['overflow', 'conversion'])
+        rp = lambda kind: dict(prog='replay/c12_replay.cpp', args=lambda ce, u, kind=kind: [kind, 'T=' + u.inst] + ['%s=%s' % (k, v) for k, v in sorted(ce.items()) if v is not None])
+        units += [
+            Unit('alignDownStripe', 'intwp', S, 'alignDownStripe', expect=[r'postcondition\.2'], **common),
+            Unit('initStripeState.partition', 'intwp', S, 'init_stripes', expect=[r'postcondition\.6', r'loop_invariant_step', r'decreases', r'bounds'],
+                 replay=dict(prog='replay/c12_replay.cpp', args=lambda ce, u: ['run', 'T=' + u.inst, 'adaptive=1', 'start=%s' % ce['start'], 'end=%s' % ce['end'], 'pool=%d' % max(1, min(int(ce['numWorkers']) - 1, 48)), 'maxThreads=%s' % ce['numWorkers'], 'granularity=%s' % ce['state_granularity']]), **common),
+        ]
+        if prop == 'C12':
+            units += [
+                Unit('stripeClaim.rule', 'intwp', S, 'stripe_claim_rule', expect=[r'postcondition\.4'], replay=rp('claim'), **common),
+                Unit('c12_stripe_claims_tile', 'intwp', S, 'c12_stripe_claims_tile', expect=[r'assertion\.4', r'precondition'], **common),
+            ]
+    return units
+
+
 def sizing_units(ctx, insts, prop='C12'):
     units = []
     S = 'specs/c12_sizing.c'
@@ -100,6 +160,8 @@ def build(ctx):
     insts = c17.INSTS if ctx.tier == 'thorough' else [c17.INSTS[0], c17.INSTS[1], c17.INSTS[4], c17.INSTS[6], c17.INSTS[7]]
     sizing_pieces(ctx)
     units = sizing_units(ctx, insts)
+    stripe_pieces(ctx)
+    units += stripe_units(ctx, insts)
     # static path: the C17 units carry the partition of the static mapper
     c17.chunking_pieces(ctx)
     c17.mapper_pieces(ctx)
